@@ -189,6 +189,11 @@ func (ex *Exec) rangeOf(t *Term, depth int) ival {
 			if a.lo >= 0 && b.lo >= 1 {
 				r = ival{0, a.hi}
 			}
+		case "bvneg":
+			a := ex.rangeOf(t.args[0], depth+1)
+			if a.lo != minI64 && a != full {
+				r = ival{-a.hi, -a.lo}
+			}
 		case "zero_extend":
 			w := t.args[0].sort.W
 			if w < 63 {
@@ -246,4 +251,67 @@ func (ex *Exec) narrowMul(a, b *Term) *Term {
 	tc := ex.tc
 	an, bn := tc.ZeroExt(tc.Extract(a, bitsFor(ra.hi)-1, 0), k), tc.ZeroExt(tc.Extract(b, bitsFor(rb.hi)-1, 0), k)
 	return tc.ZeroExt(tc.Mul(an, bn), 64)
+}
+
+// to64 rewrites an 80-bit linear combination of sign-extended 64-bit terms into the same
+// combination over 64 bits, provided interval analysis shows that no intermediate 64-bit
+// operation overflows (so both computations denote the same integer).
+func (ex *Exec) to64(t *Term) (*Term, bool) {
+	tc := ex.tc
+	if t.sort.W != timeW {
+		return nil, false
+	}
+	var conv func(t *Term, d int) (*Term, bool)
+	conv = func(t *Term, d int) (*Term, bool) {
+		if d > 16 {
+			return nil, false
+		}
+		if t.IsConst() {
+			v := t.SBig()
+			if v.IsInt64() {
+				return tc.Int64(v.Int64()), true
+			}
+			return nil, false
+		}
+		switch t.op {
+		case "sign_extend":
+			if t.args[0].sort.W == 64 {
+				return t.args[0], true
+			}
+		case "bvadd", "bvsub":
+			a, ok1 := conv(t.args[0], d+1)
+			b, ok2 := conv(t.args[1], d+1)
+			if !ok1 || !ok2 {
+				return nil, false
+			}
+			var r *Term
+			if t.op == "bvadd" {
+				r = tc.Add(a, b)
+			} else {
+				r = tc.Sub(a, b)
+			}
+			full := ival{minI64, maxI64}
+			if r.IsConst() || ex.rangeOf(r, 0) != full {
+				return r, true
+			}
+			return nil, false
+		case "bvneg":
+			a, ok := conv(t.args[0], d+1)
+			if !ok {
+				return nil, false
+			}
+			r := tc.Neg(a)
+			if ex.rangeOf(r, 0) != (ival{minI64, maxI64}) {
+				return r, true
+			}
+		case "ite":
+			a, ok1 := conv(t.args[1], d+1)
+			b, ok2 := conv(t.args[2], d+1)
+			if ok1 && ok2 {
+				return tc.Ite(t.args[0], a, b), true
+			}
+		}
+		return nil, false
+	}
+	return conv(t, 0)
 }
